@@ -197,6 +197,18 @@ def check_raster(c, cl):
     if img.min() != img.max() and dropped and kept:
         cl.add("NT")
     cl.add("raster")
+    # the same map object after a scale change: nothing may be remembered
+    s2 = c.get("scale2")
+    if s2:
+        hm.set_scale(s2)
+        for (fx, fy) in c["centres"]:
+            col, row = int(fx * w) % w, int(fy * h) % h
+            got = hm.get_depth_at(col, row)
+            exp = s2 * float(img[row, col]) / mx
+            if abs(got - exp) > 2e-5 * s2:
+                raise Violation(f"after set_scale({s2}) (was {scale}) get_depth_at(col={col}, "
+                                f"row={row}) = {got!r}, expected {exp!r}")
+        cl.add("scale_changed_after_queries")
     if c["pattern"] != "constant":
         cl.add("non_constant")
 
@@ -307,6 +319,21 @@ def check_sparse(c, cl):
     if zmin != zmax and dropped and kept:
         cl.add("NT")
     cl.add("sparse")
+    s2 = c.get("scale2")
+    if s2:
+        hm.set_scale(s2)
+        for (x, y), z in zip(pts, zs):
+            got = float(hm.get_depth_at(x, y))
+            if abs(got - s2 * z) > 1e-9 * s2 * span:
+                raise Violation(f"after set_scale({s2}) (was {scale}) sparse get_depth_at({x}, "
+                                f"{y}) = {got!r} at a stored sample with height {z!r}")
+        again = hm.sample_path([p1[0], p1[1], p2[0], p2[1]])
+        for p in again:
+            z = float(hm.get_depth_at(p[0], p[1]))
+            if abs(p[2] - z) > 1e-9 * s2 * span:
+                raise Violation(f"after set_scale({s2}) sample_path point {tuple(p)} does not "
+                                f"carry the map's height {z!r}")
+        cl.add("scale_changed_after_queries")
 
 
 def check_drop_rule_soft(kept_idx, zs, tol, what, eps):
@@ -343,6 +370,7 @@ def raster_strategy():
         "value": st.integers(0, 65535), "gx": st.integers(0, 4000), "gy": st.integers(0, 4000),
         "bytes": st.binary(min_size=1, max_size=200),
         "scale": st.one_of(st.just(1.0), st.floats(min_value=0.01, max_value=100.0)),
+        "scale2": st.one_of(st.none(), st.floats(min_value=0.01, max_value=100.0)),
         "tol": st.one_of(st.floats(min_value=1e-3, max_value=0.5), st.floats(min_value=1e-4, max_value=50)),
         "via_file": st.sampled_from([False, False, True]),
         "centres": st.lists(st.tuples(unit, unit), min_size=1, max_size=6),
@@ -364,6 +392,7 @@ def sparse_strategy():
                           min_size=1, max_size=8),
         "z": st.lists(z, min_size=1, max_size=11),
         "scale": st.one_of(st.just(1.0), st.floats(min_value=0.01, max_value=100.0)),
+        "scale2": st.one_of(st.none(), st.floats(min_value=0.01, max_value=100.0)),
         "tol": st.floats(min_value=0.05, max_value=20.0),
         "via_file": st.sampled_from([False, False, True]),
         "combos": st.lists(st.fixed_dictionaries({
